@@ -176,15 +176,21 @@ CLAIMS = {
     },
     "C13": {
         "text": "The model of BBAN.random / IBAN.random takes what the caller's generator and rstr produced (country index, bank "
-                "index, the xeger draw of each attempt) as an explicit argument and follows the overlay / truncation / retry "
-                "loop; it is fed the very choices the implementation saw (Random subclass and Rstr.xeger wrapped from outside) "
-                "and must return the same object for every country, registry mode, seed and pin subset. The property is checked on "
-                "the implementation by a table-driven oracle (validity/conformity, country, pins unchanged, listed bank, second "
-                "equally seeded call identical) and by a subprocess sweep over PYTHONHASHSEED. Theorems: see evidence "
-                "obligation_names (partial). Fixed: pinned branch overridden (b2d8752), out-of-class pins on other components "
-                "(9a4a92a). Open findings: pinned computed digits replaced, over-long pin truncated, pin ignored without positions.",
-        "note": COMMON_NOTE + " rstr and random.Random are oracles (their outputs are inputs of the model); the C13 oracle is Python written against Gen/facts.json.",
-        "technique": "Coq model with explicit randomness oracle + instrumented correspondence + table-driven property oracle + hash-seed subprocess sweep; theorems partial",
+                "index, the xeger draw of each attempt) as explicit arguments and follows the overlay / truncation / retry loop. "
+                "Proved for every value of those arguments: C13_valid (IBAN.random never returns an ISO-invalid IBAN), C13_country "
+                "(the requested country), C13_errors (BBAN.random's only library errors are the documented overflow error or an "
+                "unknown country), C13_pins / C13_iban_pins (with clean pins and draws, in a country with positions: the BBAN has "
+                "the country's length, is clean text, and every pinned component of its field's width other than the computed "
+                "check-digit field is read back unchanged) - the exact side conditions are the three open findings' complements. "
+                "Not proved: that a BBAN.random result conforms to the structure classes at filler positions, and the listed-bank "
+                "clause; these and reproducibility (the model is a function of the oracle outputs; the tie is that it is fed the "
+                "very choices the implementation saw, via a Random subclass and a wrapped Rstr.xeger, and must return the same "
+                "object) are decided by the streams: table-driven oracle (validity/conformity, country, pins, listed bank, second "
+                "equally seeded call identical) and a subprocess sweep over PYTHONHASHSEED. Fixed: pinned branch overridden "
+                "(b2d8752), out-of-class pins on other components (9a4a92a). Open findings: pinned computed digits replaced, "
+                "over-long pin truncated, pin ignored without positions.",
+        "note": COMMON_NOTE + " rstr and random.Random are oracles (their outputs are inputs of the model); the C13 stream oracle is Python written against Gen/facts.json. Partial: structure conformity of BBAN.random at filler positions, listed-bank clause and hash-seed independence are stream-checked, not proved.",
+        "technique": "Coq proof over a model with explicit randomness oracle (validity, country, error class, pins) + instrumented correspondence + table-driven property oracle + hash-seed subprocess sweep",
         "design_ref": "DESIGN.md §4 C13",
     },
     "C16": {
